@@ -16,11 +16,14 @@
 (*  "nan_passes"  the p-value test is `p < min` so that an undefined p passes              *)
 (*  "no_copy"     removal works on the caller's buffer                                     *)
 (*  "all_results" removal also subtracts unsuccessful results                              *)
+(*  "narrow_by_extent" (hardening round) the point-count guard compares the extent of the  *)
+(*                window in coordinate units with the parameter count (a hidden absolute   *)
+(*                scale) instead of counting the points the window holds                   *)
 EXTENDS FitPeaksDefs, TLC
 
 CONSTANTS Parts, Bug,
           \* windows
-          EstVals, MaxEst, Widths, Factors, DataLo, DataHi,
+          EstVals, MaxEst, Widths, Factors, DataLo, DataHi, DataStep, GuardParams,
           \* loop
           PkParams, BkParams, NptsVals, MaxPeaks, GuessMin,
           \* remove
@@ -37,10 +40,10 @@ SortedSeqs(S, n) == {s \in UNION {[1..k -> S] : k \in 1..n} :
                         \A i \in 1..(Len(s) - 1) : s[i] <= s[i+1]}
 
 WConfigs == {c \in [ests : SortedSeqs(EstVals, MaxEst), width : Widths, lo : {DataLo}, hi : {DataHi},
-                    fn : {f[1] : f \in Factors}, fd : {f[2] : f \in Factors}] :
+                    step : {DataStep}, fn : {f[1] : f \in Factors}, fd : {f[2] : f \in Factors}] :
                 <<c.fn, c.fd>> \in Factors}
 
-InitW == w \in {[cfg |-> c, phase |-> "raw", wins |-> [i \in 1..NEst(c) |-> RawWindow(c, i)]] :
+InitW == w \in {[cfg |-> c, phase |-> "raw", wins |-> [i \in 1..NEst(c) |-> RawWindow(c, i)], narrow |-> <<>>] :
                   c \in WConfigs}
 
 SeparateStep ==
@@ -53,9 +56,19 @@ ClipStep ==
     /\ w' = [w EXCEPT !.wins = [i \in 1..NEst(w.cfg) |-> ClipWindow(w.cfg, w.wins[i])],
                       !.phase = (IF Bug = "clip_first" THEN "clipped" ELSE "done")]
 
-NextW == part = "windows" /\ (SeparateStep \/ ClipStep) /\ UNCHANGED <<part, l, a, r>>
+(* the point-count guard of every window (a fit with GuardParams parameters) *)
+GuardStep ==
+    /\ w.phase = "done"
+    /\ w' = [w EXCEPT !.phase = "guarded",
+                      !.narrow = [i \in 1..NEst(w.cfg) |->
+                                    IF Bug = "narrow_by_extent"
+                                    THEN w.wins[i][2] - w.wins[i][1] < GuardParams
+                                    ELSE NPointsHalfOpen(w.cfg, w.wins[i]) < GuardParams]]
 
-WDone == part = "windows" /\ w.phase = "done"
+NextW == part = "windows" /\ (SeparateStep \/ ClipStep \/ GuardStep) /\ UNCHANGED <<part, l, a, r>>
+
+WDone == part = "windows" /\ w.phase \in {"done", "guarded"}
+WGuarded == part = "windows" /\ w.phase = "guarded"
 
 WConfigsExact == part = "windows" => (ExactCfg(w.cfg) /\ SortedEsts(w.cfg))
 WindowsInsideRange == WDone => WindowsInsideRangeOf(w.cfg, w.wins)
@@ -69,6 +82,18 @@ UncutWindowHasWidth ==
         LET raw == RawWindow(w.cfg, i)
         IN (raw = SeparateWindow(w.cfg, raw, i) /\ raw = ClipWindow(w.cfg, raw))
              => w.wins[i][2] - w.wins[i][1] = w.cfg.width
+
+(* the guard is decided by the points the window holds: consistent with the verdict that    *)
+(* the trace judge demands of recorded results                                              *)
+NarrowDecidedByPoints ==
+    WGuarded => \A i \in 1..NEst(w.cfg) :
+        NarrowVerdict(NPointsMin(w.cfg, w.wins[i]), NPointsMax(w.cfg, w.wins[i]), GuardParams,
+                      IF w.narrow[i] THEN "window_too_narrow" ELSE "fitted") = "ok"
+PointCountsConsistent ==
+    WDone => \A i \in 1..NEst(w.cfg) :
+        LET lo == NPointsMin(w.cfg, w.wins[i]) hi == NPointsMax(w.cfg, w.wins[i])
+        IN /\ lo <= NPointsHalfOpen(w.cfg, w.wins[i]) /\ NPointsHalfOpen(w.cfg, w.wins[i]) <= hi /\ hi <= lo + 2
+           /\ (w.wins[i][1] > w.wins[i][2] => hi = 0)
 
 -----------------------------------------------------------------------------
 (* loop *)
